@@ -47,7 +47,11 @@ func runC07(env *Env) {
 						if bits>>i&1 == 1 {
 							kind = 3
 						}
-						ops = append(ops, fmt.Sprintf("rec 0 %s", aggRecVals(r, T, kind)))
+						kw := "rec"
+						if kind == 3 && r.Intn(3) == 0 {
+							kw = "recr" // the destination node lists the same elements in another order
+						}
+						ops = append(ops, fmt.Sprintf("%s 0 %s", kw, aggRecVals(r, T, kind)))
 						if i == 0 {
 							// due scans before the next record arrives: retry rounds
 							for j := 0; j < rounds; j++ {
@@ -62,8 +66,15 @@ func runC07(env *Env) {
 		}
 	}
 	// 2. flows that need no correlation, and ingress-drop (which does): ready at once or not
-	for kind := 0; kind <= 7; kind++ {
-		for rep := 0; rep < 6; rep++ {
+	for kind := 0; kind <= 9; kind++ {
+		if kind == 8 {
+			continue
+		}
+		reps := 6
+		if kind == 9 {
+			reps = 64 // all 16 action combinations x side, several times over
+		}
+		for rep := 0; rep < reps; rep++ {
 			T, CF := aggRandTemplate(r)
 			other := []int{2, 3}[r.Intn(2)]
 			ops := []string{fmt.Sprintf("rec 1 %s", aggRecVals(r, T, kind)), "scan 0",
@@ -91,7 +102,7 @@ func runC07(env *Env) {
 		ops := []string{}
 		fam := make([]int, nk)
 		for k := range fam {
-			fam[k] = []int{2, 2, 2, 0, 1, 4, 6}[r.Intn(7)]
+			fam[k] = []int{2, 2, 2, 0, 1, 4, 6, 9}[r.Intn(8)]
 		}
 		for j, m := 0, 3+r.Intn(14); j < m; j++ {
 			switch x := r.Intn(10); {
@@ -109,6 +120,9 @@ func runC07(env *Env) {
 				kw := "rec"
 				if r.Intn(5) == 0 {
 					kw = "msg"
+				}
+				if r.Intn(6) == 0 {
+					kw += "r"
 				}
 				ops = append(ops, fmt.Sprintf("%s %d %s", kw, k, aggRecVals(r, T, kind)))
 			case x < 7:
